@@ -15,6 +15,7 @@ package pool
 //@ field Pool.size closure New$1(stepSize = self.stepSize)
 //@ property C19 C12
 //@ field Pool.* constructed_by New
+//@ field Pool.* covered
 //@ field Pool.pool immutable New
 //@ field Pool.size immutable New
 //@ field Pool.stepSize immutable New
